@@ -32,7 +32,8 @@ RULE = ("cases = (method, plan, dialogue cut, fault schedule, pre-existing forei
         "1.8 does) and by OSError EAGAIN/ENOENT raised at the subprocess boundary (the process cannot be spawned); what "
         "is left after a failing command must not depend on which non-zero status it returned --, on a machine where "
         "every `-m owner` command fails persistently (status 2/4: --user/--group without the owner match; the next "
-        "session on the port must still start), with foreign chains/"
+        "session on the port must still start); every case runs at a helper verbosity taken from the rotation "
+        "[0,0,3,0,2,0,3,1] shifted by the seed (stored in the replay case; behaviour must not depend on it); with foreign chains/"
         "rules (some carrying non-ASCII UTF-8 comments, which every `-nL` listing read by ipt_chain_exists then shows) "
         "and a second instance on another port present before or arriving during the session, also combined with "
         "tear-down faults; the helper's log streams (sys.stderr / sys.stdout behind the real helpers.log) failing "
@@ -780,7 +781,7 @@ class Sandbox:
 HOSTS0 = '127.0.0.1 localhost\n10.9.8.7 printer  # not ours\n'
 
 
-def run_main(box, method, chunks, started_fails=False, hooks=None, io_mode=None):
+def run_main(box, method, chunks, started_fails=False, hooks=None, io_mode=None, verbose=0):
     """The real firewall.main on a scripted dialogue.  Returns (exit, stdout bytes).
     io_mode: None, or dict(verbose=0|1|2, err='EIO'|'EPIPE'|'closed', when='always'|'teardown', stdout=bool):
     the helper's log streams fail (real helpers.log / debug1 are used throughout)."""
@@ -798,6 +799,7 @@ def run_main(box, method, chunks, started_fails=False, hooks=None, io_mode=None)
         sys.stdout = FailingStream(box, io_mode['err'], io_mode.get('when', 'teardown')) \
             if io_mode.get('stdout') else io.StringIO()
     else:
+        helpers.verbose = int(verbose or 0)
         sys.stderr = io.StringIO()
         sys.stdout = io.StringIO()
     try:
@@ -941,13 +943,27 @@ def enc_list(l):
 
 # ------------------------------------------------------------------ one case
 
+# The helper's verbosity (what firewall.main gets from the client's -v flags) is a dimension of every
+# scenario: behaviour must not depend on it.  Every case executed takes the next level of this rotation,
+# shifted by the check's seed, so over seeds 0..7 every directed case has run at every level.
+VERBOSITY_ROTATION = [0, 0, 3, 0, 2, 0, 3, 1]
+_VSTATE = {'i': 0, 'seed': 0}
+
+
+def next_verbosity():
+    v = VERBOSITY_ROTATION[(_VSTATE['i'] + _VSTATE['seed']) % len(VERBOSITY_ROTATION)]
+    _VSTATE['i'] += 1
+    return v
+
+
 class Case:
     """(method, dialogue chunks, faults, prelude, flags) — JSON-able, replayable."""
 
     def __init__(self, method, chunks, faults=(), prelude=(), resolvectl=False, started_fails=False,
                  pfinit=None, second=None, ports=(), pfrules=None, spawn=None, io=None, fd_budget=None,
-                 status=None, env_fail=None):
+                 status=None, env_fail=None, verbose=None):
         self.method = method
+        self.verbose = verbose   # helpers.verbose while the real code runs; None = take the next of the rotation
         self.chunks = [c if isinstance(c, bytes) else c.encode('ASCII') for c in chunks]
         self.faults = sorted(faults)
         self.prelude = [list(p) for p in prelude]
@@ -978,14 +994,14 @@ class Case:
                     pfinit=self.pfinit, second=self.second, ports=self.ports,
                     spawn=dict((str(k), v) for k, v in sorted(self.spawn.items())), io=self.io,
                     fd_budget=self.fd_budget, status=dict((str(k), v) for k, v in sorted(self.status.items())),
-                    env_fail=[list(x) for x in self.env_fail])
+                    env_fail=[list(x) for x in self.env_fail], verbose=self.verbose)
 
     @staticmethod
     def from_json(d):
         return Case(d['method'], d['dialogue'], d.get('faults', ()), d.get('prelude', ()), d.get('resolvectl', False),
                     d.get('started_fails', False), d.get('pfinit'), d.get('second'), d.get('ports', ()),
                     spawn=d.get('spawn'), io=d.get('io'), fd_budget=d.get('fd_budget'), status=d.get('status'),
-                    env_fail=d.get('env_fail'))
+                    env_fail=d.get('env_fail'), verbose=d.get('verbose', 0))
 
 
 def second_instance(box, method, q, action):
@@ -1016,6 +1032,8 @@ class Outcome:
 
 def execute(box, case, lean=None, faults=None):
     """Run the real main for `case`.  Returns an Outcome with the states as PyEnv text."""
+    if case.verbose is None:
+        case.verbose = next_verbosity()
     if case.env_fail:
         lean = None          # a machine whose commands fail persistently exists in PyEnv only
     py = PyEnv(case.pfinit)
@@ -1082,7 +1100,7 @@ def execute(box, case, lean=None, faults=None):
         hooks[nread] = hook
     import copy as _copy
     o.pf0 = _copy.deepcopy(py.pf)
-    o.exit, o.stdout = run_main(box, case.method, case.chunks, case.started_fails, hooks, case.io)
+    o.exit, o.stdout = run_main(box, case.method, case.chunks, case.started_fails, hooks, case.io, case.verbose)
     box.fd_budget = None
     o.final = py.show()
     o.final_pretty = py.pretty()
@@ -1168,7 +1186,7 @@ def later_session(box, case, py_after):
     py.log = []
     box.write_hosts(HOSTS0)
     before = py.show()
-    ex, out = run_main(box, case.method, case.full_chunks, False, None)
+    ex, out = run_main(box, case.method, case.full_chunks, False, None, None, case.verbose)
     return ex, (b'STARTED\n' in out), before, py.show()
 
 
@@ -1378,8 +1396,8 @@ def report(ctx, case, key, expected, observed, note, o):
                   kind='faults' if case.fault_indices() else 'ops')
 
 
-IO_MODES_QUICK = [(1, 'EIO'), (2, 'EPIPE'), (1, 'closed'), (0, 'EIO')]
-IO_MODES_ALL = [(v, e) for v in (0, 1, 2) for e in ('EIO', 'EPIPE', 'closed')]
+IO_MODES_QUICK = [(1, 'EIO'), (2, 'EPIPE'), (3, 'closed'), (0, 'EIO'), (3, 'EIO')]
+IO_MODES_ALL = [(v, e) for v in (0, 1, 2, 3) for e in ('EIO', 'EPIPE', 'closed')]
 
 
 def run_plan(ctx, box, lean, plan, budget, with_io=False):
@@ -1470,6 +1488,7 @@ def run_plan(ctx, box, lean, plan, budget, with_io=False):
         ctx.count()
         if case.io:
             ctx.hist('%s:log-stream-%s-v%d' % (plan.method, case.io['err'], case.io['verbose']))
+        ctx.hist('verbosity:%d' % (case.io['verbose'] if case.io else (case.verbose or 0)))
         if case.status:
             ctx.hist('%s:fault-status-%s' % (plan.method, '+'.join(str(v) for v in sorted(set(case.status.values())))))
         ctx.mark((case.method, case.chunks, case.faults, sorted(case.status.items()), sorted(case.spawn.items()),
@@ -1504,7 +1523,7 @@ def run_plan(ctx, box, lean, plan, budget, with_io=False):
                               observed='status %d leaves: %s' % (list(case.status.values())[0],
                                                                 ' || '.join(o.final_pretty) or '(builtin chains only)'),
                               note='command %d (%s) fails; exit=%s vs %s' % (
-                                  case.faults[0], ' '.join(o1.log[case.faults[0]][0]), o.exit, o1.exit),
+                                  case.faults[0], ' '.join(o1.log[case.faults[0]][0]) if case.faults[0] < len(o1.log) else 'not reached', o.exit, o1.exit),
                               kind='faults')
     return cases
 
@@ -1525,6 +1544,7 @@ SIGNAL_HELPER = r"""
 import os, sys
 sys.dont_write_bytecode = True
 harness, repo, method, statefile, hostsfile, resolvectl = sys.argv[1:7]
+verbosity = int(sys.argv[8]) if len(sys.argv) > 8 else 0
 os.environ['VERIF_REPO'] = repo
 sys.path.insert(0, harness)
 import common
@@ -1560,6 +1580,7 @@ box.resolvectl = resolvectl == '1'
 box.use_pf(method)
 dump()
 sys.stderr = open(os.devnull, 'w')
+box.m['helpers'].verbose = verbosity
 firewall.main(c04.METHOD_MODULE[method], False)
 """
 
@@ -1623,7 +1644,8 @@ def run_signal_case(case):
         env = dict(os.environ, VERIF_REPO=common.REPO)
         helper = subprocess.Popen(
             [sys.executable, '-c', SIGNAL_HELPER, common.HERE, common.REPO, method, statefile, hostsfile,
-             '1' if case.get('resolvectl') else '0', json.dumps(case.get('prelude', []))],
+             '1' if case.get('resolvectl') else '0', json.dumps(case.get('prelude', [])),
+             str(int(case.get('verbose') or 0))],
             stdin=subprocess.PIPE, stdout=subprocess.PIPE, stderr=subprocess.DEVNULL, bufsize=0, env=env)
         line = _read_line(helper.stdout, 20)
         if not line or not line.startswith(b'READY '):
@@ -1715,7 +1737,7 @@ def signal_cases(ctx):
                  ('tproxy', ['SIGTERM']), ('nat', ['SIGHUP', 'SIGHUP', 'SIGPIPE']), ('nft', ['SIGINT', 'SIGINT', 'SIGINT'])]
     for method, names in seqs:
         yield dict(kind='signal', method=method, signals=names, dialogue=dialogue,
-                   prelude=FOREIGN_PRELUDE[:4], resolvectl=False)
+                   prelude=FOREIGN_PRELUDE[:4], resolvectl=False, verbose=next_verbosity())
 
 
 def run_signals(ctx):
@@ -1729,6 +1751,7 @@ def run_signals(ctx):
         ctx.count()
         ctx.mark(('signal', case['method'], tuple(case['signals'])), True)
         ctx.hist('signal:' + '+'.join(case['signals']))
+        ctx.hist('verbosity:%d' % case['verbose'])
         if len(ctx.samples) < 8:
             ctx.samples.append(dict(kind='signal', method=case['method'], signals=case['signals'], real_code=r['info']))
         for key, exp, obs, note in r['problems']:
@@ -1910,6 +1933,8 @@ def start_driver():
 
 
 def run(ctx):
+    _VSTATE['i'] = 0
+    _VSTATE['seed'] = int(getattr(ctx, 'seed', 0) or 0)
     run_signals(ctx)
     box = Sandbox()
     lean = None
